@@ -5,7 +5,9 @@ import RuxModel.Model.Writer
 
     chain <k> <GET|HEAD|POST> <onpanic> <onerror> <ct-hex|none> ...   -> ok        (first line; extra tokens ignored)
     <action> <site> <args…>   site = 0 … 2k-2 | E | P                 -> skipped | ok … | wrote n err … | panic …
-    end                                                               -> <escaped> <log> len=<Length()> ;; st=<StatusCode()>
+    end [hc]                                                          -> <escaped> <log> len=<Length()> ;; st=<StatusCode()>
+                                       (`hc`: the harness enters through Router.HandleContext instead of ServeHTTP;
+                                        both run handleHTTPRequest, the model is the same)
 
   Sites must come in time order (chain blocks ascending, then E, then P); anything else is `bad-order`.
 -/
@@ -119,10 +121,12 @@ def writerStep (s : WriterSt) : List String → WriterSt × String
         (⟨c, Req.init c, 0⟩, "ok")
       else (s, "bad-op")
     | _, _, _, _, _ => (s, "bad-op")
-  | ["end"] =>
-    let f := s.req.finish
-    ({ s with req := Req.init s.cfg, rank := 0 },
-     s!"{boolStr s.req.escaped} {logStr f.log} len={f.length} ;; st={f.status} ct={ctStr f.ctype} sent={sentStr f.sent}")
+  | "end" :: via =>
+    if via = [] ∨ via = ["hc"] then
+      let f := s.req.finish
+      ({ s with req := Req.init s.cfg, rank := 0 },
+       s!"{boolStr s.req.escaped} {logStr f.log} len={f.length} ;; st={f.status} ct={ctStr f.ctype} sent={sentStr f.sent}")
+    else (s, "bad-op")
   | kind :: site :: rest =>
     match parseSite s.cfg.k site, parseAct (kind :: rest) with
     | some (st, rk), some a =>
